@@ -181,7 +181,7 @@ func pkcs5UnPadding(src []byte, blockSize int) ([]byte, error) {
 	}
 
 	unPadding := int(src[length-1])
-	if unPadding >= length || unPadding > blockSize {
+	if unPadding > length || unPadding > blockSize {
 		return nil, ErrPaddingSize
 	}
 
